@@ -41,7 +41,8 @@ ASSUMPTIONS = [
 ]
 RULE = ("a case = (loop configuration, durations of auxiliary awaited tasks, block tree of depth 1..3 with deadlines "
         "from {None,-1,0,1..6} around sleep(0)/sleep(k)/await-task items, optional environment cancels); run on a "
-        "virtual clock; 35 % of the random cases (and a systematic grid) spawn 1-2 child Python tasks from inside the "
+        "virtual clock; awaited objects: sleeps, a task, gather(...) of tasks, shield(task), a bare future the "
+        "environment resolves; 35 % of the random cases (and a systematic grid) spawn 1-2 child Python tasks from inside the "
         "main task's block tree, each child running its own timed blocks; "
         "non-trivial when the run itself shows at least one of: a timer that fired, a TimeoutError, "
         "a foreign interrupt passing an inner level, equal deadlines on two levels, a deadline equal to a "
@@ -57,11 +58,13 @@ THEOREMS = {
     "foreign-interrupt-changed": "Asynkit.C16.nested_level_exact",
     "interrupt-escaped": "Asynkit.C16.nested_level_exact",
     "none-interferes": "Asynkit.C16.none_is_identity",
+    "awaited-future-cancelled": "Asynkit.C15.awaited_untouched (task_throw leaves the awaited future alone) / C16 statement",
+    "awaited-task-cancelled": "Asynkit.C15.awaited_untouched / C16 statement",
     "none-differs": "Asynkit.C16.none_is_identity",
 }
 
 
-def gen_block(rng, depth, naux):
+def gen_block(rng, depth, naux, nfut=0):
     d = rng.choice([None, None, -1, 0, 1, 2, 3, 4, 5, 6, 7, 8, 9, 10, 12])
 
     def items(n):
@@ -70,15 +73,24 @@ def gen_block(rng, depth, naux):
             r = rng.random()
             if r < 0.3:
                 out.append(["s0"])
-            elif r < 0.8 or not naux:
+            elif r < 0.72 or not (naux or nfut):
                 out.append(["s", rng.randint(1, 3)])
             else:
-                out.append(["aw", rng.randrange(naux)])
+                kinds = (["aw", "ga", "sh"] if naux else []) + (["fu"] if nfut else [])
+                k = rng.choice(kinds)
+                if k == "aw":
+                    out.append(["aw", rng.randrange(naux)])
+                elif k == "ga":
+                    out.append(["ga", sorted(rng.sample(range(naux), rng.randint(1, naux)))])
+                elif k == "sh":
+                    out.append(["sh", rng.randrange(naux)])
+                else:
+                    out.append(["fu", rng.randrange(nfut)])
         return out
 
     body = items(rng.randint(0, 2))
     if depth > 1:
-        inner = gen_block(rng, depth - 1, naux)
+        inner = gen_block(rng, depth - 1, naux, nfut)
         handled = rng.random() < 0.4
         if d is not None and d > 0 and rng.random() < 0.4 and all(it[0] in ("s", "s0") for it in body):
             # tie: the inner deadline expires at the same tick as this one
@@ -116,13 +128,19 @@ def gen_storm(rng):
 
 def gen_case(rng):
     naux = rng.choice([0, 0, 1, 2])
+    nfut = rng.choice([0, 0, 0, 1, 2])
     case = {"loop": rng.choice(LOOPS), "aux": [rng.randint(1, 6) for _ in range(naux)],
-            "prog": gen_block(rng, rng.randint(1, 3), naux)}
+            "prog": gen_block(rng, rng.randint(1, 3), naux, nfut)}
+    if nfut:
+        case["futs"] = [rng.randint(1, 8) for _ in range(nfut)]
     r = rng.random()
     if r < 0.06:
         return gen_storm(rng)
     if r < 0.14:
-        case["cancel_at"] = [[rng.randint(0, 5), rng.randint(0, 3)]]
+        # (an environment cancel of a task awaiting gather() cancels the gather — legitimately — and CPython then
+        #  reports "_GatheringFuture exception was never retrieved" at a GC-dependent moment: not combined)
+        if '"ga"' not in json.dumps(case["prog"]):
+            case["cancel_at"] = [[rng.randint(0, 5), rng.randint(0, 3)]]
     elif r < 0.45:
         # child tasks, spawned somewhere inside the main task's block tree (so usually inside timed blocks),
         # each with its own timeouts around work that may or may not outlive them and the parent's blocks
@@ -317,6 +335,13 @@ def systematic(loop):
                         yield {"loop": loop, "aux": [], "children": [
                             {"pre": pre, "prog": {"d": db, "body": [["s", work]]}}],
                             "prog": {"d": da, "body": [["spawn", 0], ["s", psleep]]}}
+    # the block is suspended, at its deadline, on a non-Task future nobody else waits for: gather's / shield's outer
+    # future, a bare future of the environment
+    for d in [1, 2, 3]:
+        for item, extra in ((["ga", [0, 1]], {"aux": [3, 4]}), (["ga", [0]], {"aux": [4]}), (["sh", 0], {"aux": [4]}),
+                            (["fu", 0], {"aux": [], "futs": [4]}), (["fu", 0], {"aux": [], "futs": [d]})):
+            yield dict({"loop": loop, "prog": {"d": d, "body": [item, ["s", 1]]}}, **extra)
+            yield dict({"loop": loop, "prog": {"d": None, "body": [["tblk", {"d": d, "body": [item]}], item]}}, **extra)
     # tied nested deadlines, the inner TimeoutError (if that is what comes out) handled inside the outer block,
     # which then goes on for much longer than its own, expired, deadline
     for pre, do, di in [(0, 5, 5), (2, 5, 3), (4, 5, 1), (0, 3, 3), (1, 3, 2), (0, 2, 2)]:
